@@ -143,12 +143,13 @@ fn eval_unary_expr(
     context: &mut model::Context,
 ) -> error::Result<model::Value> {
     let value = eval_union_expr(uni.value(), node.clone(), context)?;
-    let inv = uni.inv().len() % 2;
-    if inv == 0 {
-        Ok(value)
-    } else {
-        Ok(-value)
+    // every minus sign converts to a number and negates: two of them still leave a number
+    let mut value = value;
+    for _ in uni.inv() {
+        value = -value;
     }
+
+    Ok(value)
 }
 
 fn eval_union_expr(
